@@ -420,7 +420,32 @@ def sizes_oracle(case):
     return {"nt": True, "labels": [f"m:{m}", f"n:{n}"]}
 
 
+def enum_sweep(tier):
+    """Samples ((i+0.5)/n)^p: the uniformity statistics sweep continuously
+    from large through their minimum and back (the p-value code switches
+    formulas and tables with the value of the statistic)."""
+    k = 200 if tier == "quick" else 2000
+    for n in ((3, 6, 13, 40) if tier == "quick" else (1, 2, 3, 5, 6, 13, 40,
+                                                       200, 400)):
+        for j in range(k):
+            yield {"n": n, "j": j, "k": k}
+
+
+def sweep_oracle(case):
+    n, j, k = case["n"], case["j"], case["k"]
+    pw = float(np.exp(np.log(0.2) + j / (k - 1) * (np.log(6.0)
+                                                   - np.log(0.2))))
+    u = ((np.arange(n) + 0.5) / n) ** pw
+    u = np.clip(u, 1e-300, 1 - 1e-16)
+    perm = ((np.arange(n) * 7 + 3) % n) if n % 7 else np.arange(n)[::-1]
+    res = unif_oracle({"u": u.tolist(), "shape": "sweep",
+                       "perm": perm.tolist(), "bad": 2.0, "badpos": 0})
+    return {"nt": True, "labels": [f"n:{n}"]}
+
+
 SUBS = [
+    Sub("C10.statistic-sweep", sweep_oracle, enumerate=enum_sweep,
+        shards=(8, 16)),
     Sub("C10.sizes-around-powers-of-two", sizes_oracle, enumerate=enum_sizes,
         shards=(8, 16)),
     Sub("C10.ensrank+dscore", rank_oracle, strategy=rank_case,
